@@ -1,0 +1,15 @@
+//go:build verif
+
+package server
+
+import "github.com/godaddy/asherah/go/appencryption"
+
+// VerifNewAppEncryptionWithFactory builds the gRPC service over a caller-supplied session factory.
+// It is only available when built with the verif build tag.
+func VerifNewAppEncryptionWithFactory(sf *appencryption.SessionFactory) *AppEncryption {
+	return &AppEncryption{
+		streamerFactory: streamerFactoryFunc(func() *streamer {
+			return &streamer{sessionFactory: sf}
+		}),
+	}
+}
